@@ -29,6 +29,10 @@ integer = _np.integer
 floating = _np.floating
 bool_ = _np.bool_
 dtype = _np.dtype
+can_cast = _np.can_cast
+result_type = _np.result_type
+promote_types = _np.promote_types
+issubdtype = _np.issubdtype
 _F8 = _np.dtype("float64")
 _I8 = _np.dtype("int64")
 _B1 = _np.dtype("bool")
